@@ -15,6 +15,7 @@
 package spec
 
 import (
+	"bytes"
 	"encoding/json"
 	"fmt"
 	"log"
@@ -159,15 +160,17 @@ func (r *schemaLoader) resolveRef(ref *Ref, target interface{}, basePath string)
 		// the pointer ends at a member the typed document does not hold (e.g. an absent additionalProperties)
 		return fmt.Errorf("%q designates nothing in the document: %w", ref.String(), ErrSpec)
 	}
-	if err := swag.DynamicJSONToStruct(res, target); err != nil {
+	// decode the JSON form of what was found (as swag.DynamicJSONToStruct does)
+	b, err := swag.WriteJSON(res)
+	if err != nil {
 		return err
 	}
-	if held := tgt.Elem(); held.Kind() == reflect.Ptr && held.IsNil() {
+	if string(bytes.TrimSpace(b)) == "null" {
 		// what the typed document holds there encodes as JSON null (e.g. an "items" that is neither a schema nor a
-		// list of schemas): nothing has been decoded
+		// list of schemas): there is nothing to decode, whatever the kind of the target
 		return fmt.Errorf("%q designates nothing in the document: %w", ref.String(), ErrSpec)
 	}
-	return nil
+	return swag.ReadJSON(b, target)
 }
 
 // designatesNothing tells whether a JSON pointer evaluated on a typed document ended at a member that document
